@@ -109,8 +109,9 @@ Proof.
     + intros p'. unfold pend. cbn. rewrite ?ensure_queue, ?ensure_notif, ?ensure_calls.
       intros [W|[W|W]]; auto. right; right. apply pendc_cons. exact W.
   - (* AUpdEnq *)
-    destruct (has (KUpd p) (calls s) && can_enq s); inv H.
+    destruct (upd_enq p s) as [s1|] eqn:E; inv H. apply upd_enq_spec in E; subst.
     apply (SInv_transfer s); auto; [apply same_subs_refl|]. intros p'. apply (pend_enq s (KUpd p)); auto.
+  - (* ABlocked *) destruct (has (KUpd p) (calls s) && negb (can_enq s) && upd_blocking); inv H. exact I.
   - (* ASubReg *)
     inv H. destruct (sub_reg_cases _ _ _ _ _ H1) as [->|(_ & s0 & H0 & ->)]; [exact I|].
     destruct (sub_reg0_spec _ _ _ _ H0) as (ch & L & Et & Sv & _ & _ & P & C & Q & Nf).
